@@ -136,12 +136,12 @@ func (e *ckksEnv) scheme() *scheme[*ckks.Evaluator] {
 			L := e.p.MaxLevel()
 			x, y := e.ct(L, "", 1), e.ct(L, "x3", 1)
 			o := ckks.NewCiphertext(e.p, 2, L)
-			_ = ev.Mul(x, y, o)
-			_ = ev.MulRelin(x, y, o)
-			_ = ev.Add(x, y, o)
-			_ = ev.Rotate(x, 1, o)
-			_ = ev.Add(x, e.vals(), o)
-			_ = ev.Rescale(x, o)
+			eng.Panics(func() { _ = ev.Mul(x, y, o) })
+			eng.Panics(func() { _ = ev.MulRelin(x, y, o) })
+			eng.Panics(func() { _ = ev.Add(x, y, o) })
+			eng.Panics(func() { _ = ev.Rotate(x, 1, o) })
+			eng.Panics(func() { _ = ev.Add(x, e.vals(), o) })
+			eng.Panics(func() { _ = ev.Rescale(x, o) })
 		},
 		newCt: func(deg, lvl int) *rlwe.Ciphertext { return ckks.NewCiphertext(e.p, deg, lvl) },
 		dirty: func(r *eng.Rand, deg int) *rlwe.Ciphertext {
